@@ -1,4 +1,5 @@
 import GbVerif.Proofs.PpuInterleave
+import GbVerif.Model.Ppu
 /-!
 C15 stage (i): consequences of the interleave enumeration, the flip multiply trick (all 256
 bytes) and tile addressing (all 256 indices × all 256 LCDC values), kernel-checked.
